@@ -20,7 +20,8 @@ open Gedcom Gedcom.Sim Gedcom.SimSrc
 theorem similarity_source_shape :
     Generated.srcWeighted.ok = true ∧ Generated.srcIndividual.ok = true ∧ Generated.srcDateRange.ok = true ∧
     Generated.srcDateNode.ok = true ∧ Generated.srcJaroWinkler.ok = true ∧
-    Generated.srcWeighted.shape = ["let:individual", "let:parents", "let:spouses", "let:children", "ret"] ∧
+    Generated.srcWeighted.shape = ["let:individual", "let:parents", "let:spouses", "let:children", "let:total",
+      "guard", "ret"] ∧
     Generated.srcIndividual.shape = ["nil-guard", "let:nameSimilarity", "loop:nameSimilarity",
       "input:leftEstimatedBirthDate,_", "input:rightEstimatedBirthDate,_", "input:birthSimilarity",
       "input:leftEstimatedDeathDate,_", "input:rightEstimatedDeathDate,_", "input:deathSimilarity",
@@ -45,8 +46,24 @@ def envWeighted (s : SurrSim) : Var → Rat
 
 /-- `weightedSimilarity` is the translated `WeightedSimilarity`, for every component and weight -/
 theorem weighted_is_the_source (s : SurrSim) :
-    weightedSimilarity s = Generated.srcWeighted.eval (envWeighted s) := by
-  simp [Generated.srcWeighted, Fn.eval, AExp.eval, envWeighted, weightedSimilarity]
+    weightedSimilarityC s = Generated.srcWeighted.eval (envWeighted s) := by
+  unfold weightedSimilarityC
+  by_cases h : weightedSimilarity s > 1
+  · have : (s.individual * s.opts.individualWeight + s.parents * s.opts.parentsWeight +
+        s.spouses * s.opts.spousesWeight + s.children * s.opts.childrenWeight) > 1 := h
+    simp [Generated.srcWeighted, Fn.eval, AExp.eval, envWeighted, Guard.fires, Cmp.holds, lit11, h, this]
+  · have : ¬ (s.individual * s.opts.individualWeight + s.parents * s.opts.parentsWeight +
+        s.spouses * s.opts.spousesWeight + s.children * s.opts.childrenWeight) > 1 := h
+    simp [Generated.srcWeighted, Fn.eval, AExp.eval, envWeighted, Guard.fires, Cmp.holds, lit11, h, this,
+      weightedSimilarity]
+
+/-- in exact arithmetic the cut at one never applies when the sum is at most one (which
+    `weighted_bounds` proves for valid options and components in [0,1]) -/
+theorem weightedC_eq (s : SurrSim) (h : weightedSimilarity s ≤ 1) :
+    weightedSimilarityC s = weightedSimilarity s := by
+  unfold weightedSimilarityC
+  have : ¬ weightedSimilarity s > 1 := Rat.not_lt.mpr h
+  simp [this]
 
 def envIndividual (name birth death ratio : Rat) : Var → Rat
   | .name => name | .birth => birth | .death => death | .ratio => ratio | _ => 0
